@@ -80,5 +80,8 @@ NeverPoisoned == outcome \in {"none", "old", "new", "searched"}
 (* the final name never holds a partial payload (what the atomic protocol guarantees) *)
 FinalAlwaysComplete == final = Absent \/ Complete(final)
 (* history generation: every crash schedule, for replay on the real writer *)
+(* an entry that was there before the writer started is never lost: under its name there is always the old entry or
+   the complete new one ("entries stored before the crash remain readable") *)
+OldNeverLost == HasOld => Complete(final)
 EmitHist == outcome # "none" => PrintT(<<"V", hist, outcome, final>>)
 =============================================================================
